@@ -34,9 +34,21 @@ CONSTANTS FileSeq,      \* the physical files under test (a sequence, so that a 
           KeyForms      \* forms of wcs_key explored
 
 \* ------------------------------------------------------------------ files
-E == [kind |-> "empty", keys |-> {}]
-T == [kind |-> "tab", keys |-> {}]
-I(ks) == [kind |-> "img", keys |-> ks]
+\* axes = the WCS axes of the HDU in FITS order (NAXIS1 first); xlen = length of every non-celestial axis
+E == [kind |-> "empty", keys |-> {}, axes |-> <<>>, xlen |-> 0]
+T == [kind |-> "tab", keys |-> {}, axes |-> <<>>, xlen |-> 0]
+I(ks) == [kind |-> "img", keys |-> ks, axes |-> <<"RA", "DEC">>, xlen |-> 0]
+\* an image HDU with more than two axes: a spectral and/or a Stokes axis before, between or after the celestial ones
+Cube(ks, ax, n) == [kind |-> "img", keys |-> ks, axes |-> ax, xlen |-> n]
+AxisNames == {"RA", "DEC", "FREQ", "STOKES"}
+Pos(ax, name) == CHOOSE n \in DOMAIN ax : ax[n] = name
+AxisOrders == {ax \in UNION {[1..m -> AxisNames] : m \in 3..4} :
+                 /\ \A n1, n2 \in DOMAIN ax : n1 # n2 => ax[n1] # ax[n2]
+                 /\ \E n \in DOMAIN ax : ax[n] = "RA"
+                 /\ \E n \in DOMAIN ax : ax[n] = "DEC"
+                 /\ Pos(ax, "RA") < Pos(ax, "DEC")}
+CubeTypes == {Cube({" ", "A"}, ax, n) : ax \in AxisOrders, n \in {1, 2}}
+IsCelestial(name) == name \in {"RA", "DEC"}
 KeySeq == <<" ", "A", "B">>
 KeyNo(k) == CHOOSE n \in DOMAIN KeySeq : KeySeq[n] = k
 AllKeys == {KeySeq[n] : n \in DOMAIN KeySeq}
@@ -93,17 +105,58 @@ ParseOption(present, toks) == IF ~present THEN None ELSE IF Len(toks) = 1 THEN O
 \* ------------------------------------------------------------------ encoding of (physical file, HDU, key) in the data
 Shape(p, j) == <<2 + p, 5 + j>>            \* (rows, columns)
 Val(p, j) == 10 * p + j                    \* constant pixel value
-Crpix(p, j) == <<50 * p + 10 * j, 7 + j>>  \* different (file, HDU) never overlap on the common tangent plane
+\* pixel scale of physical file p in units of 1/1000 degree: files 1, 3, 5 ... share the finest grid, the others are 2x / 4x
+\* coarser, so that a collection may or may not lie on one common pixel grid
+Scale(p) == IF p % 2 = 1 THEN 1 ELSE IF p % 4 = 2 THEN 2 ELSE 4
+\* where the image starts on the common tangent plane, in finest pixels from the reference point, along the pixel-x direction
+SkyX(p, j) == 200 * p + 40 * j
+Crpix(p, j) == <<SkyX(p, j) \div Scale(p), 7 + j>>
 Crval(k) == <<10 * KeyNo(k), 10 * KeyNo(k) - 5>>
-Cdelt == <<-1, 1>>                         \* in 1/1000 degree: an ordinary bottom-up FITS image (positive parity)
+Cdelt(p) == <<-Scale(p), Scale(p)>>        \* in 1/1000 degree: an ordinary bottom-up FITS image (positive parity)
+AxisLen(p, j, h, n) == IF h.axes[n] = "RA" THEN Shape(p, j)[2] ELSE IF h.axes[n] = "DEC" THEN Shape(p, j)[1] ELSE h.xlen
+\* the pixel at index idx (one index per FITS axis) holds Val + 1000 * (sum of the indices on the non-celestial axes):
+\* the celestial plane at index 0 of every other axis is the constant Val(p, j)
+PlaneStep == 1000
 Content(p, j, h) ==
     [kind |-> h.kind, shape |-> IF IsImage(h) THEN Shape(p, j) ELSE <<>>, val |-> Val(p, j),
-     wcs |-> {[key |-> k, crval |-> Crval(k), crpix |-> Crpix(p, j), cdelt |-> Cdelt] : k \in h.keys}]
+     axes |-> [n \in DOMAIN h.axes |-> [name |-> h.axes[n], len |-> AxisLen(p, j, h, n)]], planestep |-> PlaneStep,
+     wcs |-> {[key |-> k, crval |-> Crval(k), crpix |-> Crpix(p, j), cdelt |-> Cdelt(p)] : k \in h.keys}]
 \* what the harness has to write: physical file p as a list of HDU contents
 FileTable == [p \in DOMAIN FileSeq |-> [jj \in DOMAIN FileSeq[p] |-> Content(p, jj - 1, FileSeq[p][jj])]]
-\* what must be observed for an item that stands for (list position, physical file p, HDU j, key k)
+\* what must be observed for an item that stands for (list position, physical file p, HDU j, key k): the 2-D celestial
+\* image (for a cube: plane 0 of every non-celestial axis) with the celestial part of the selected WCS
 Observed(o) == [path |-> o.path, file |-> o.file, hdu |-> o.hdu, key |-> o.key, shape |-> Shape(o.file, o.hdu),
-                val |-> Val(o.file, o.hdu), crval |-> Crval(o.key), crpix |-> Crpix(o.file, o.hdu), cdelt |-> Cdelt]
+                val |-> Val(o.file, o.hdu), crval |-> Crval(o.key), crpix |-> Crpix(o.file, o.hdu), cdelt |-> Cdelt(o.file)]
+
+\* ---- what the code does with an array of more than two axes (numpy order = FITS order reversed)
+Rev(sq) == [n \in DOMAIN sq |-> sq[Len(sq) + 1 - n]]
+\* _load: keep_axes = celestial?, in numpy order; data[tuple(slice(None) if k else 0 ...)]; descriptions: the kept lengths
+KeepShape(ax, lens) == LET names == Rev(ax)
+                           l == Rev(lens)
+                       IN SelectSeq([n \in DOMAIN names |-> <<names[n], l[n]>>], LAMBDA e : IsCelestial(e[1]))
+SliceShape(ax, lens) == LET k == KeepShape(ax, lens) IN [n \in DOMAIN k |-> k[n][2]]
+\* the alternative "peel the leading numpy axes until two are left" keeps the first two FITS axes, whatever they are
+PeelShape(ax, lens) == <<lens[2], lens[1]>>
+\* theorem: slicing by keep_axes gives (rows, columns) of the celestial image for EVERY axis order; peeling only when the
+\* celestial axes come first in FITS order (lengths chosen pairwise different)
+CubeSlicing == \A ax \in AxisOrders :
+    LET lens == [n \in DOMAIN ax |-> IF ax[n] = "RA" THEN 7 ELSE IF ax[n] = "DEC" THEN 5 ELSE IF ax[n] = "FREQ" THEN 2 ELSE 3] IN
+    /\ SliceShape(ax, lens) = <<5, 7>>
+    /\ (PeelShape(ax, lens) = <<5, 7>>) <=> (ax[1] = "RA" /\ ax[2] = "DEC")
+
+\* ---- what a tiling of the collection has to show (end-to-end observation)
+\* the item's footprint on the common tangent plane in finest pixels: doubled centre (integers), width, height
+Sky(o) == LET sh == Shape(o.file, o.hdu)
+              sc == Scale(o.file)
+              c == Crpix(o.file, o.hdu)
+          IN [cx2 |-> (sh[2] + 1 - 2 * c[1]) * sc, cy2 |-> (sh[1] + 1 - 2 * c[2]) * sc, w |-> sh[2] * sc, h |-> sh[1] * sc]
+MinOf(S) == CHOOSE x \in S : \A y \in S : x <= y
+\* the mosaic of a collection is sampled at the finest input scale; the inputs lie on ONE pixel grid (no reprojection
+\* needed) exactly when they all have the same scale and use the same reference point (same key)
+MosaicUnit(items) == MinOf({Scale(items[n].file) : n \in DOMAIN items})
+Aligned(items) == /\ \A n, m \in DOMAIN items : Scale(items[n].file) = Scale(items[m].file)
+                  /\ \A n, m \in DOMAIN items : items[n].key = items[m].key
+SameSky(items) == \A n, m \in DOMAIN items : items[n].key = items[m].key
 
 \* ------------------------------------------------------------------ the space of cases
 Files(l) == [i \in DOMAIN l |-> FileSeq[l[i]]]
@@ -217,15 +270,18 @@ CaseSpaceComplete(n) ==
 \* the loop finds the first image HDU whenever there is one; otherwise it ends on the last HDU
 GuessIsFirstImage(n) == \A f \in AllLayouts(n) : /\ HasImage(f) => GuessHdu(f) = FirstImage(f)
                                                  /\ ~HasImage(f) => GuessHdu(f) = Len(f) - 1
-\* the observation encoding tells every (physical file, HDU) apart, by shape alone, by value alone and by CRPIX alone ...
+\* the observation encoding tells every (physical file, HDU) apart, by shape alone, by value alone and by WCS alone ...
 Slots == (DOMAIN FileSeq) \X (0..(MaxHdus - 1))
 EncodingInjective ==
     /\ Cardinality({Shape(c[1], c[2]) : c \in Slots}) = Cardinality(Slots)
     /\ Cardinality({Val(c[1], c[2]) : c \in Slots}) = Cardinality(Slots)
-    /\ Cardinality({Crpix(c[1], c[2])[1] : c \in Slots}) = Cardinality(Slots)
-\* ... and pixel x of an image sits at x - CRPIX1 on the common tangent plane: two different (file, HDU) never overlap
+    /\ Cardinality({<<Crpix(c[1], c[2])[1], Scale(c[1])>> : c \in Slots}) = Cardinality(Slots)
+    /\ \A c \in Slots : Crpix(c[1], c[2])[1] * Scale(c[1]) = SkyX(c[1], c[2])
+\* ... and on the common tangent plane two different (file, HDU) are at least 8 finest pixels apart along x
+\* (pixel x of an image sits at (x - CRPIX1) * scale)
+Left(c) == (1 - Crpix(c[1], c[2])[1]) * Scale(c[1])
+Right(c) == (Shape(c[1], c[2])[2] - Crpix(c[1], c[2])[1]) * Scale(c[1])
 EncodingDisjoint ==
-    \A c1, c2 \in Slots :
-        Crpix(c1[1], c1[2])[1] < Crpix(c2[1], c2[2])[1] => Crpix(c2[1], c2[2])[1] - Crpix(c1[1], c1[2])[1] >= Shape(c2[1], c2[2])[2]
+    \A c1, c2 \in Slots : c1 # c2 => (Right(c1) + 8 <= Left(c2) \/ Right(c2) + 8 <= Left(c1))
 EncodingKeys == \A k1, k2 \in AllKeys : k1 # k2 => Crval(k1)[1] # Crval(k2)[1] /\ Crval(k1)[2] # Crval(k2)[2]
 =============================================================================
